@@ -1,7 +1,7 @@
 (* Properties/C10.v — at most maxInFlight events buffered; eviction only for cause. *)
 From Coq Require Import List ZArith Bool.
 Import ListNotations.
-Require Import Reassembler ReasmInv ReasmC01 ReasmC10 ChkBound ReasmBound.
+Require Import Reassembler ReasmInv ReasmC01 ReasmC10 ChkBound ReasmBound ReasmCause.
 Open Scope Z_scope.
 
 (* the bound, for every history (no window needed): after every Push at most
@@ -9,4 +9,28 @@ Open Scope Z_scope.
 Theorem C10_bound_any_history : forall c ops, 0 <= maxSize c -> chk_bound (maxSize c) [] ops (run c init ops) = true.
 Proof. intros c ops H. apply run_chk_bound; auto. apply InvL_init. Qed.
 
+(* eviction only for cause: every delivery CleanUp makes outside Close is of an event that is
+   complete, or found more than maxInFlight sequences buffered, or whose timeout had elapsed —
+   for every buffer content, configuration and clock reading (evict_log is evict with a ghost
+   log of the events as they were when evicted; evict_log_outs ties it to the callbacks) *)
+Theorem C10_evicted_only_for_cause : forall c now sqs em t, In t (evict_log false c now sqs em) ->
+  let '(sq, e, size) := t in complete e = true \/ size > maxSize c \/ now > expire e.
+Proof. exact evictions_have_cause. Qed.
+Theorem C10_log_is_the_deliveries : forall force c now sqs em last has,
+  let '(_, _, _, _, outs, _) := evict force c now sqs em last has in
+  (In Panic outs \/ outs_of outs = map (fun t => msgs (snd (fst t))) (evict_log force c now sqs em)).
+Proof. exact evict_log_outs. Qed.
+(* the oldest buffered event is never one that is already complete (nor over the bound, nor expired) *)
+Theorem C10_head_not_complete : forall c now sqs em last has,
+  let '(sqs', em', _, _, outs, _) := evict false c now sqs em last has in
+  In Panic outs \/
+  match sqs' with
+  | [] => True
+  | k :: _ => exists e, lookup k em' = Some e /\ complete e = false /\ Z.of_nat (length sqs') <= maxSize c /\ now <= expire e
+  end.
+Proof. exact head_after_cleanup. Qed.
+
 Print Assumptions C10_bound_any_history.
+Print Assumptions C10_evicted_only_for_cause.
+Print Assumptions C10_log_is_the_deliveries.
+Print Assumptions C10_head_not_complete.
